@@ -50,10 +50,26 @@ def parseRat (s : String) : Option Rat :=
       if d = 0 then none else pure (mkRat n d)
   | _ => none
 
+/-- dense signal `x:t0@v0,t1@v1` (times rational, values IEEE bits) -/
+def parseDSig (s : String) : Option (String × Dense.DSig Float) :=
+  match s.trimAscii.toString.splitOn ":" with
+  | [x, body] =>
+      let items := (body.splitOn ",").filter (· ≠ "")
+      (items.mapM (fun (it : String) => match it.splitOn "@" with
+          | [t, v] => do
+              let t ← parseRat t
+              let v ← floatOfBits v
+              pure (t, v)
+          | _ => none)).map (fun l => (x, l))
+  | _ => none
+
+def showOptVals (l : List (Option Float)) : String :=
+  " ".intercalate (l.map (fun o => match o with | some v => bitsOfFloat v | none => "U"))
+
 def parseUnit : String → Option TUnit
   | "s" => some .s | "ms" => some .ms | "us" => some .us | "ns" => some .ns | _ => none
 
-def parseEnv (fields : List String) : Option (Env Float) := fields.mapM parseSignal
+def parseEnv (fields : List String) : Option (Env Float) := (fields.filter (· ≠ "")).mapM parseSignal
 
 def handle (line : String) : String :=
   let fields := (line.splitOn "|").map (fun s => s.trimAscii.toString)
@@ -84,6 +100,29 @@ def handle (line : String) : String :=
           let c : SamplingCfg := { period := p, periodUnit := pu, tol := tl, unit := u }
           s!"ok {onlineCounter c tsl} {offlineCounter c st tsl} {(gaps tsl).countP c.outside}"
       | _, _, _, _, _, _ => "bad-input"
+  | "dense" :: scale :: f :: times :: sigs =>
+      -- dense-time reference semantics: value of rhoD at each query time ("U" = undefined there),
+      -- then the start and the end of the common input domain
+      match parseRat scale, parseFormula f, (words times).mapM parseRat, (sigs.filter (· ≠ "")).mapM parseDSig with
+      | some sc, some φ, some ts, some w =>
+          let cfg : Dense.DCfg := { scale := sc }
+          let d := Dense.dom w φ
+          let e := match Dense.domEnd w φ with | some e => s!"{e.num}/{e.den}" | none => "inf"
+          -- fast bottom-up evaluator; cross-checked against the point-wise definition rhoD on shallow formulas
+          let vals := ts.map (Dense.evalAt cfg w φ)
+          let agree := if φ.size ≤ 6 then
+              (ts.map (Dense.rhoD cfg w φ)).map (fun o => o.map Float.toBits) == vals.map (fun o => o.map Float.toBits)
+            else true
+          if agree then s!"ok {showOptVals vals} | {d.num}/{d.den} {e}" else "model-mismatch"
+      | _, _, _, _ => "bad-input"
+  | "ia" :: sem :: inputs :: f :: _ =>
+      -- the IA predicate override as a formula transformation
+      let sm : Option Sem := match sem with
+        | "standard" => some .standard | "outRob" => some .outRob | "inRob" => some .inRob
+        | "inVac" => some .inVac | "outVac" => some .outVac | _ => none
+      match sm, parseFormula f with
+      | some sm, some φ => "ok " ++ showF (iaT sm ((inputs.splitOn ",").filter (· ≠ "")) φ)
+      | _, _ => "bad-input"
   | "prog" :: fs :: n :: sigs =>
       -- multi-assertion online monitor (dictionary keyed by formula + per-update memo): per update the
       -- value of every assertion; rounds separated by ';'
